@@ -314,6 +314,32 @@ func init() {
 					printParse(c, "number", &ref.Msg{Stream: 1, Function: 1, W: 1, Dir: "H->E", Item: n2})
 					c.Case(0, true, out)
 				}})
+			// the longest legal ASCII items: one quoted run, several runs split by character codes, inside a list
+			longNs := []int{65535, 65536, ref.MaxBytes - 1, ref.MaxBytes}
+			longForms := []string{"one quoted run", "runs split by a line feed in the middle", "a double quote at both ends", "inside a list, after a sibling"}
+			sp = append(sp, h.Space{Name: "longest-ascii-items", Count: product(len(longNs), len(longForms)), ChunkHint: 1,
+				Describe: func(i uint64) interface{} {
+					d := unrank(i, len(longNs), len(longForms))
+					return fmt.Sprintf("ASCII item of %d characters, %s", longNs[d[0]], longForms[d[1]])
+				},
+				Run: func(c *h.Ctx, i uint64) {
+					d := unrank(i, len(longNs), len(longForms))
+					n := longNs[d[0]]
+					str := strings.Repeat("a", n)
+					switch d[1] {
+					case 1:
+						str = strings.Repeat("a", n/2) + "\n" + strings.Repeat("b", n-n/2-1)
+					case 2:
+						str = "\"" + strings.Repeat("a", n-2) + "\""
+					}
+					var it ast.ItemNode = ast.NewASCIINode(str)
+					if d[1] == 3 {
+						it = ast.NewListNode(ast.NewUintNode(1, 7), it)
+					}
+					m := ast.NewDataMessage("long", 1, 1, 1, "H->E", it)
+					ok := fixedPoint(c, "longest-ascii", fmt.Sprintf("ASCII item of %d characters, %s", n, longForms[d[1]]), m)
+					c.Case(0, true, fmt.Sprintf("fixed-point=%v", ok))
+				}})
 			if tier == "thorough" {
 				// every F4 sign/exponent with 4096 mantissa patterns, every F8 exponent with 64: shortest-form print -> parse -> same bits
 				sp = append(sp, h.Space{Name: "f4-f8-bit-pattern-sweep-print-parse", Count: 2*256*4096 + 2*2047*64, ChunkHint: 4096,
